@@ -212,6 +212,9 @@ func (rn *runner) stats(p *Prog, impl string) {
 		}
 	}
 	o.Count(fmt.Sprintf("typedef-chain-len:%s", bucket(chain)))
+	if p.Shape2 != "" {
+		o.Count(fmt.Sprintf("%s:%s", p.Shape2, bucketChain(p.MaxChain)))
+	}
 	o.Count(fmt.Sprintf("typedefs:%s", bucket(ntd)))
 	o.Count(fmt.Sprintf("cross-file-typedefs:%s", bucket(nq)))
 	o.Count(fmt.Sprintf("const-identifiers:%s", bucket(nid)))
@@ -229,6 +232,18 @@ func countIdents(c *CV) int {
 		n += countIdents(it)
 	}
 	return n
+}
+
+func bucketChain(n int) string {
+	switch {
+	case n <= 6:
+		return "1-6"
+	case n <= 12:
+		return "9-12"
+	case n <= 17:
+		return "17"
+	}
+	return "33"
 }
 
 func bucket(n int) string {
@@ -325,9 +340,9 @@ func run(repo, dir string, seed uint64, tier string) error {
 	}
 	defer pl.stop()
 	rn := &runner{out: vl.NewOut(dir), pool: pl}
-	nprog, nvar, maxFiles, maxChain := 400, 3, 5, 6
+	nprog, nvar, maxFiles, maxChain := 400, 3, 5, 33
 	if tier == "thorough" {
-		nprog, nvar, maxFiles, maxChain = 10000, 2, 8, 12
+		nprog, nvar, maxFiles, maxChain = 10000, 2, 8, 33
 	}
 	for _, p := range fixedCases() { // regression items first
 		rn.one(p, r, 1)
